@@ -10,7 +10,7 @@ import (
 func init() {
 	register("C29", []string{".", "./sstable"}, runC29)
 	propTechnique["C29"] = "SSA must-facts dataflow with value provenance (bounds stored into an sstable iterator are the virtual-constrained ones on every path on which the table is virtual), who-may-write for the bound fields, pass-through of the truncating wrapper for span iterators, virtual parameters reaching the read environment"
-	propExplain["C29"] = "Decides the confinement clause of C29 — a virtual table never yields entries outside its virtual bounds — where it is visible in the shape of the readers; that the entries inside the bounds are exactly the transformed physical ones (synthetic prefix/suffix/seqnum arithmetic) and CopySpan's completeness are value-level and are not decided. (V1) wherever package pebble builds the sstable.ReadEnv for a table (createReader, withReader), the table's VirtualParams are stored into it on every path on which TableMetadata.Virtual is true; (B1) the point iterator's bounds (singleLevelIterator.lower / upper / endKeyInclusive; the two-level iterator shares them) are written only by init and SetBounds, and at every return of those, on every path on which the read environment is virtual, the values last stored are results of VirtualReaderParams.ConstrainBounds; (B2) NewRawRangeDelIter and NewRawRangeKeyIter return a non-nil iterator for a virtual environment only after wrapping it in keyspan.Truncate. A reader that forgets one of these exposes the keys of the neighbouring virtual tables that share the same physical file — keys that were excised, or that belong to another store."
+	propExplain["C29"] = "Decides the confinement clause of C29 — a virtual table never yields entries outside its virtual bounds — where it is visible in the shape of the readers; that the entries inside the bounds are exactly the transformed physical ones (synthetic prefix/suffix/seqnum arithmetic) and CopySpan's completeness are value-level and are not decided. (V1) wherever package pebble builds the sstable.ReadEnv for a table (createReader, withReader), the table's VirtualParams are stored into it on every path on which TableMetadata.Virtual is true; (B1) the point iterator's bounds (singleLevelIterator.lower / upper / endKeyInclusive; the two-level iterator shares them) are written only by init and SetBounds, and at every return of those, on every path on which the read environment is virtual, the values last stored are results of VirtualReaderParams.ConstrainBounds; (B3) each seek entry point (internalSeekGE — behind SeekGE and SeekGEWithMeta —, SeekPrefixGE, SeekLT of both iterator types) compares the seek key with its constrained lower / upper bound on the virtual path before handing the key to another iterator method; (B2) NewRawRangeDelIter and NewRawRangeKeyIter return a non-nil iterator for a virtual environment only after wrapping it in keyspan.Truncate. A reader that forgets one of these exposes the keys of the neighbouring virtual tables that share the same physical file — keys that were excised, or that belong to another store."
 }
 
 func runC29(c *Ctx) {
@@ -147,6 +147,90 @@ func runC29(c *Ctx) {
 			}))) == 0 {
 				c.Ob("C29.B1", fn, "ConstrainBounds is applied", c.P.Pos(fn.Pos()), false, name+" no longer constrains the bounds of a virtual table")
 			}
+		}
+	}
+
+	// ---- B3 (added after seed C29-a): sibling agreement of the seek entry points ----
+	// Callers do not know a virtual table's bounds. Each of internalSeekGE / SeekPrefixGE / SeekLT
+	// of both iterator types compares the seek key with its (constrained) lower resp. upper bound
+	// on the Virtual != nil path before it hands the key to any other method of the sstable
+	// iterators; all six do so today.
+	{
+		n := 0
+		for _, typ := range []string{"singleLevelIterator", "twoLevelIterator"} {
+			for _, m := range []struct{ name, bound string }{{"internalSeekGE", "lower"}, {"SeekPrefixGE", "lower"}, {"SeekLT", "upper"}} {
+				fn := c.Fn("C29.B3", "sst.(*"+typ+")."+m.name)
+				if fn == nil {
+					continue
+				}
+				// by position: internalSeekGE(key, …), SeekPrefixGE(prefix, key, …), SeekLT(key, …)
+				idx := 1
+				if m.name == "SeekPrefixGE" {
+					idx = 2
+				}
+				keyParam := fn.Params[idx]
+				bound := m.bound
+				compared := Pred("cmp(key, "+bound+")", func(in ssa.Instruction) bool {
+					call, ok := in.(*ssa.Call)
+					if !ok || call.Common().IsInvoke() || call.Common().StaticCallee() != nil {
+						return false
+					}
+					hasKey, hasBound := false, false
+					for _, a := range call.Common().Args {
+						if len(derivesFrom(a, func(v ssa.Value) bool { return v == ssa.Value(keyParam) }, 3)) > 0 {
+							hasKey = true
+						}
+						if pathHasSuffix(pathOf(a), bound) {
+							hasBound = true
+						}
+					}
+					return hasKey && hasBound
+				})
+				onward := Pred("key handed to an sstable iterator method", func(in ssa.Instruction) bool {
+					call, ok := in.(*ssa.Call)
+					if !ok {
+						return false
+					}
+					cal := call.Common().StaticCallee()
+					if cal == nil || cal.Signature.Recv() == nil || cal.Pkg == nil && cal.Origin() == nil {
+						return false
+					}
+					o := cal
+					if cal.Origin() != nil {
+						o = cal.Origin()
+					}
+					if o.Pkg == nil || o.Pkg.Pkg.Path() != pkgAlias["sst"] {
+						return false
+					}
+					for i, a := range call.Common().Args {
+						if i == 0 {
+							continue
+						}
+						if _, isSlice := a.Type().Underlying().(*types.Slice); !isSlice {
+							continue
+						}
+						if len(derivesFrom(a, func(v ssa.Value) bool { return v == ssa.Value(keyParam) }, 3)) > 0 {
+							return true
+						}
+					}
+					return false
+				})
+				fl := NewFlow(c.P).After("key-confined", compared).Edge("key-confined", ZeroGuard("Virtual"))
+				fl.MaxDepth = 0
+				res := fl.Analyze(fn, emptyState())
+				c.noteFlow(fl)
+				k := c.Require("C29.B3", res, onward, "the seek key is compared with the virtual "+bound+" bound before it is handed on", []string{"key-confined"})
+				if k == 0 {
+					c.Unresolved("C29.B3", "no onward use of the seek key found in "+typ+"."+m.name)
+				}
+				if len(instrs(fn, compared)) == 0 {
+					c.Ob("C29.B3", fn, "the seek key is compared with the "+bound+" bound", c.P.Pos(fn.Pos()), false, typ+"."+m.name+" no longer compares the seek key with the iterator's "+bound+" bound")
+				}
+				n += k
+			}
+		}
+		if n < 6 {
+			c.Unresolved("C29.B3", fmt.Sprintf("only %d onward uses of a seek key found in the six seek entry points", n))
 		}
 	}
 
